@@ -1863,6 +1863,12 @@ void process_metadata_stack(mmd_engine * e, scratch_pad * scratch) {
 	}
 
 	if (header_level != -10) {
+		// Headers start at level 1 -- a lower base level gives <h0> or <h-4>, and
+		// OPML/ITMZ outlines that are never closed
+		if (header_level < 1) {
+			header_level = 1;
+		}
+
 		scratch->base_header_level = header_level;
 	}
 }
